@@ -47,6 +47,7 @@ EAGER4 = ["executed_undemanded:X", "executed_undemanded:Y", "executed_more:X:2>1
 # C01
 add("C01", "rec_with_switch", ["unexpected_error:NodeErr1"], W1 + " and fails(v, 'X')", REC_EAGER)
 add("C01", "rec_with_oneof", ["unexpected_error:NodeErr1", "wrong_cause:NodeErr1"], W1 + " and fails(v, 'C1', 'C2')", REC_EAGER)
+add("C01", "r2_oneof_with_switch", ["wrong_value"], SWX, SW_ONEOF)
 add("C01", "rec_outside_reader_slow", ["schedule_dependent_value"], W1, OUTSIDE)
 add("C01", "rec_two_scopes", ["schedule_dependent_value"], W1, OUTSIDE)
 # C02
@@ -55,7 +56,7 @@ add("C02", "oneof_diamond_shared", ["deadlock"], "v['r.F.kind0'] == 1 and v['r.S
 # C03
 add("C03", "oneof_with_switch", ["bad_arg_type:C1.v:NodeErr1"], SWX, SW_ONEOF)
 add("C03", "rec_outside_reader", ["arg:R.m"], W1, OUTSIDE)
-add("C03", "rec_two_scopes", ["arg:W.s"], W1, OUTSIDE)
+add("C03", "rec_two_scopes", ["arg:W.s", "arg:X.d"], W1, OUTSIDE)
 # C04
 add("C04", "rec_with_switch", EAGER4, W1, REC_EAGER)
 # C09
@@ -74,7 +75,7 @@ add("C11", "rec_with_switch", EAGER4, W1, REC_EAGER)
 add("C11", "rec_with_switch", ["unexpected_error:NodeErr1"], W1 + " and fails(v, 'X')", REC_EAGER)
 add("C11", "rec_with_oneof", ["unexpected_error:NodeErr1", "wrong_cause:NodeErr1"], W1 + " and fails(v, 'C1', 'C2')", REC_EAGER)
 add("C11", "rec_with_oneof", ["executed_undemanded:C2", "executed_more:C2:2>1"], W1, REC_EAGER)
-add("C11", "rec_two_scopes", ["arg:W.s", "wrong_value"], W1, OUTSIDE)
+add("C11", "rec_two_scopes", ["arg:W.s", "arg:X.d", "wrong_value"], W1, OUTSIDE)
 # C15
 add("C15", "family_n5", ["parameter_dropped_or_merged:f4:declared=x,y:delivered=y"],
     "(v['n4_kind'] == 0 and v['n4_second'] - 1 == v['n4_src']) or "
@@ -83,8 +84,8 @@ add("C15", "family_n5", ["parameter_dropped_or_merged:f4:declared=x,y:delivered=
 for j in ("rec_simple", "rec_simple_default", "rec_inner_start"):
     add("C19", j, ["write_once_store_failed_correct_pipeline:processor__S"], W1, SAVE_EPOCH)
 add("C19", "switch_shared_case", ["write_once_store_failed_correct_pipeline:processor__X"], "v['r.S.label0'] == 0", SAVE_DUP)
-add("C19", "slow_collab_rhombus", ["not_saved:D"], "v['collab_dur'] >= 1", SAVE_PENDING)
-add("C19", "slow_collab_oneof_diamond_shared", ["not_saved:S", "not_saved:O"], "v['collab_dur'] >= 1", SAVE_PENDING)
+add("C19", "slow_collab_rhombus", ["not_saved:D"], "v['save_dur'] >= 1", SAVE_PENDING)
+add("C19", "slow_collab_oneof_diamond_shared", ["not_saved:S", "not_saved:O"], "v['save_dur'] >= 1", SAVE_PENDING)
 
 FIXED = [
  ("C05", "do not read Task.exception()", "CancelledError escaped from chart.run when a failing one-of branch cancelled pending sibling tasks (oneof_diamond: F fails while S is in flight)"),
